@@ -7,6 +7,10 @@ def judgeC02 : P Verdict := do
   tag op
   match op with
   | "compose" =>
+    -- `tiny`: every terminal of g is a lattice map scaled by 2^-60 / 2^-70; the data is dyadic and binary64 computes
+    -- every coefficient of the composition exactly, so the stored tree has to be the model's tree, entry by entry
+    let tiny ← (do if (← peek?) == some "tiny" then let _ ← tok; pure true else pure false)
+    if tiny then tag "tiny"
     let fd ← pTree; let gd ← pTree; expect "|"
     let st ← tok
     let some f := fd.abs | return .skip "operand f is not a consistent tree"
@@ -36,9 +40,16 @@ def judgeC02 : P Verdict := do
     let m := PT.compose f g
     match treeCmp f.indices true m h with
     | .same => if inexact then pure (.inexact "eval") else pure .ok
-    | .close => pure (.inexact "tree")
+    | .close =>
+      if tiny then
+        match pts.find? (fun p => PT.eval h p.1 != spec p.1) with
+        | some p => pure (.propfail s!"compose: at input {showVec p.1} g(f(x)) = {showOptVec (spec p.1)} but the terminal stored in the composed tree maps it to {showOptVec (PT.eval h p.1)} (exact data: coefficients far below f64::EPSILON are the function)")
+        | none => pure (.diverge "compose: model tree differs from the implementation's tree in coefficients below 2^-40 (exact data)")
+      else pure (.inexact "tree")
     | .different => pure (.diverge "compose: model tree differs from the implementation's tree (structure, maps, states or kept indices)")
   | "apply_func" =>
+    let tiny ← (do if (← peek?) == some "tiny" then let _ ← tok; pure true else pure false)
+    if tiny then tag "tiny"
     let fd ← pTree; let a ← pAff; expect "|"
     let st ← tok
     let some f := fd.abs | return .skip "operand is not a consistent tree"
@@ -52,7 +63,12 @@ def judgeC02 : P Verdict := do
       return .propfail s!"apply_func: at input {showVec x} a(f(x)) = {showOptVec want} but the tree evaluates to {showEval got}"
     match treeCmp f.indices true (PT.applyFunc f a) h with
     | .same => if inexact then pure (.inexact "eval") else pure .ok
-    | .close => pure (.inexact "tree")
+    | .close =>
+      if tiny then
+        match pts.find? (fun p => PT.eval h p.1 != spec p.1) with
+        | some p => pure (.propfail s!"apply_func: at input {showVec p.1} a(f(x)) = {showOptVec (spec p.1)} but the terminal stored in the tree maps it to {showOptVec (PT.eval h p.1)} (exact data)")
+        | none => pure (.diverge "apply_func: model tree differs from the implementation's tree in coefficients below 2^-40 (exact data)")
+      else pure (.inexact "tree")
     | .different => pure (.diverge "apply_func: model tree differs from the implementation's tree")
   | _ => throw s!"unknown C02 op {op}"
 
